@@ -522,7 +522,7 @@ pub fn run(ctx: &Ctx) -> Report {
                     scripts.push(Script::Q(QProg::completed(k as u64, 0)));
                 }
                 let per_cmd = i % 4 != 3;
-                let mut c = super::c18::TlsCase { tls13: rng.bool(), with_cert: rng.chance(1, 4), server_mode: 0, user: b"cutuser".to_vec(), cmds, scripts, first_cut: 0, cycle: if rng.bool() { vec![] } else { vec![rng.range(1, 700) as usize] }, write_limit: usize::MAX, close_notify: false, raw_limit: None, hs_variant: 0, app_override: None, seqs: (1, 2), auth_reject: None, record_per_command: per_cmd, write_fault: None };
+                let mut c = super::c18::TlsCase { tls13: rng.bool(), with_cert: rng.chance(1, 4), server_mode: 0, user: b"cutuser".to_vec(), cmds, scripts, first_cut: 0, cycle: if rng.bool() { vec![] } else { vec![rng.range(1, 700) as usize] }, write_limit: usize::MAX, close_notify: false, raw_limit: None, hs_variant: 0, app_override: None, seqs: (1, 2), auth_reject: None, record_per_command: per_cmd, write_fault: None, buffer_writes: rng.bool() };
                 let dry = match super::c18::run_tls(&tm, &c) {
                     Ok(o) => o,
                     Err(e) => {
@@ -640,7 +640,7 @@ pub fn run(ctx: &Ctx) -> Report {
                     _ => full[..full.len() - 1].to_vec(),
                 };
                 let close_notify = i % 8 < 4;
-                let c = super::c18::TlsCase { tls13: i % 3 != 0, with_cert: false, server_mode: 0, user: b"early-leaver".to_vec(), cmds: vec![], scripts: vec![], first_cut: 0, cycle: if rng.bool() { vec![] } else { vec![rng.range(1, 100) as usize] }, write_limit: usize::MAX, close_notify, raw_limit: None, hs_variant: 0, app_override: Some(app.clone()), seqs: (1, 2), auth_reject: None, record_per_command: false, write_fault: None };
+                let c = super::c18::TlsCase { tls13: i % 3 != 0, with_cert: false, server_mode: 0, user: b"early-leaver".to_vec(), cmds: vec![], scripts: vec![], first_cut: 0, cycle: if rng.bool() { vec![] } else { vec![rng.range(1, 100) as usize] }, write_limit: usize::MAX, close_notify, raw_limit: None, hs_variant: 0, app_override: Some(app.clone()), seqs: (1, 2), auth_reject: None, record_per_command: false, write_fault: None, buffer_writes: rng.bool() };
                 let o = match super::c18::run_tls(&tm, &c) {
                     Ok(o) => o,
                     Err(e) => {
